@@ -4,7 +4,7 @@
    every program, colouring, alias relation, instruction semantics and machine state; the check
    tools/props/c06.py evaluates the validator on every frame the real allocator produces. *)
 From Coq Require Import ZArith List Bool.
-From PV Require Import Spec.RegAllocSpec Model.RegAllocCheck Proofs.C06_regalloc.
+From PV Require Import Spec.RegAllocSpec Model.RegAllocCheck Proofs.C06_regalloc Proofs.C06_compact Proofs.C06_spill.
 Import ListNotations.
 Open Scope Z_scope.
 
@@ -78,6 +78,40 @@ Theorem c06_check_frame_unfold : forall prog fuel ctbl atbl physl ridx pre after
   compact removed (target (color_of ctbl) prog removed) = after.
 Proof. exact check_frame_unfold. Qed.
 Print Assumptions c06_check_frame_unfold.
+
+(* deleting the no-op entries: the rewritten frame [after], run under the same semantics re-indexed
+   to its own numbering, performs exactly the steps the coloured program performs at its
+   non-deleted entries ([norm] renumbers the program counter; m <= n because deleted entries take
+   no step) *)
+Theorem c06_compact_sound : forall prog color removed after,
+  length removed = length prog ->
+  compact removed (target color prog removed) = after ->
+  forall al junk S n st, exists m, (m <= n)%nat /\
+    let tp := target color prog removed in
+    norm tp (run al junk S tp n st)
+    = run al (reindex_junk junk tp) (reindex_sem S tp) (map Some after) m (norm tp st).
+Proof. exact compact_sound. Qed.
+Print Assumptions c06_compact_sound.
+
+(* PARTIAL (spilling): local correctness of rewrite_program for ONE rewritten instruction, for every
+   instruction semantics g and every state: with t spilled to [slot] and the fresh register t2,
+   "load t2 <- slot (if t is read); i[t := t2]; store slot <- t2 (if t is written)" reads exactly
+   the values i reads and re-establishes the relation "slot holds t, all other old registers
+   unchanged".  Not proved: stitching the blocks into a whole-program simulation, and that the
+   target's generated load/store instructions behave as a load/store of that slot; the block
+   structure itself is checked per frame in Python (check_spill_py). *)
+Theorem c06_spill_block_sound_partial :
+  forall (isph : reg -> bool) (al0 : reg -> reg -> bool) (J : junk_t)
+         (g : list value -> list value) (t t2 : reg) (slot : Z) (i : instr),
+  isph t = false -> isph t2 = false -> t2 <> t ->
+  ~ In t2 (i_uses i) /\ ~ In t2 (i_defs i) /\ ~ In t2 (i_clob i) ->
+  ~ In t (i_clob i) ->
+  forall rf rf' mem, spill_rel t t2 slot rf rf' mem ->
+  let '(rf1, rf2, mem2) := spilled_block (src_alias isph al0) J g t t2 slot i rf' mem in
+  map rf1 (i_uses (rename (sigma t t2) i)) = map rf (i_uses i) /\
+  spill_rel t t2 slot (exec (src_alias isph al0) J g i rf) rf2 mem2.
+Proof. exact spill_block_sound. Qed.
+Print Assumptions c06_spill_block_sound_partial.
 
 (* non-vacuity: a frame with a coalesced copy, an aliasing pair (0 ~ 1) and a loop is accepted;
    the same frame with the loop-carried register put on the aliasing register is rejected *)
